@@ -61,7 +61,19 @@ class BoomIndexError(Boom, IndexError):
     pass
 
 
-BOOMS = [Boom, BoomKeyError, BoomZeroDivision, BoomAttributeError, BoomTypeError, BoomValueError, BoomIndexError]
+def _boom_classes():
+    out = [Boom, BoomKeyError, BoomZeroDivision, BoomAttributeError, BoomTypeError, BoomValueError, BoomIndexError]
+    # ... and as the exception types that have a meaning of their own for Python's iteration / generator / import
+    # machinery or that code tends to catch broadly (a StopIteration raised inside map() or a generator silently ends
+    # the iteration instead of propagating)
+    for base in (StopIteration, StopAsyncIteration, RuntimeError, LookupError, ArithmeticError, OverflowError,
+                 FloatingPointError, AssertionError, NotImplementedError, OSError, EOFError, NameError, ImportError,
+                 RecursionError, BufferError, UnicodeError):
+        out.append(type("Boom" + base.__name__, (Boom, base), {}))
+    return out
+
+
+BOOMS = _boom_classes()
 
 
 _PY = ["random", "randrange", "randint", "choice", "choices", "shuffle", "sample", "uniform", "gauss",
